@@ -45,7 +45,8 @@ ASSUMPTIONS = [
     "while code runs makes the cron service spin: with sleeptime == overhead it waits with a "
     "zero timeout until the clock moves - harmless with a real clock)",
 ]
-REQUIRED = {'sync_points_checked': 1000, 'crash_points': 500, 'restarts': 1000,
+REQUIRED = {'wall_clock_steps': 50, 'saved_expiry_vs_loop_timer': 1000,
+            'sync_points_checked': 1000, 'crash_points': 500, 'restarts': 1000,
             'fsm_states_restored': 200, 'timer_expiry_preserved': 100,
             'expired_during_downtime': 100, 'expiration_discarded': 50, 'nosync_unchanged': 200,
             'handler_failure_not_saved': 20, 'failed_start_nothing_written': 10,
@@ -189,6 +190,16 @@ def life1(case, ctx):
     def wall():
         return holder['clock'].peek_time()
 
+    stale = set()       # timed blocks not saved since the last step of the wall clock
+
+    def wall_expiry(blk):
+        """Absolute (wall clock) expiry of the block's pending timer, from the loop's handle."""
+        loop = hist.loop
+        own = [h for h in loop.edzed_timers() if h._callback.__self__ is blk]
+        if not own:
+            return None
+        return wall() + (own[0].when() - loop.time())
+
     def check_sync(blocks, label, disabled):
         """Storage must hold exactly get_state() of every sync block."""
         snap = storage.snapshot()
@@ -207,6 +218,13 @@ def life1(case, ctx):
             if blk.key not in snap:
                 info['violations'].append(
                     ('state-not-saved', f"{label}: {blk.key} missing in the storage; state {cur!r}"))
+            elif name in stale:
+                # the wall clock was stepped and the block has not handled an event since:
+                # the stored absolute expiry is legitimately the one computed before the step
+                if snap[blk.key][0] != cur[0] or not deep_eq(snap[blk.key][2], cur[2]):
+                    info['violations'].append(
+                        ('saved-state-differs-from-current',
+                         f"{label}: storage[{blk.key}] = {snap[blk.key]!r}, get_state() = {cur!r}"))
             elif not deep_eq(snap[blk.key], cur):
                 info['violations'].append(
                     ('saved-state-differs-from-current',
@@ -218,6 +236,16 @@ def life1(case, ctx):
                     ('saved-state-differs-from-current',
                      f"{label}: storage[{blk.key}] = {snap[blk.key]!r}, the block is in state "
                      f"{blk.state!r} with sdata {blk.sdata!r}"))
+            elif name in ('fsm', 'tmr', 'iexp'):
+                # the saved expiry against the timer handle of the event loop (not against
+                # the library's own conversion)
+                want = wall_expiry(blk)
+                ctx.count('saved_expiry_vs_loop_timer')
+                if not deep_eq(snap[blk.key][1], want):
+                    info['violations'].append(
+                        ('saved-expiry-differs-from-running-timer',
+                         f"{label}: storage[{blk.key}] = {snap[blk.key]!r}, the running timer "
+                         f"expires at wall-clock time {want!r} (now {wall()!r})"))
         return snap
 
     def take_point(blocks, label, disabled, kind):
@@ -268,8 +296,14 @@ def life1(case, ctx):
             try:
                 if op == 'sleep':
                     await asyncio.sleep(step[1])
+                elif op == 'walljump':
+                    # the wall clock is stepped (NTP, date set); the loop clock is not
+                    holder['clock'].jump += step[1]
+                    stale.update(('fsm', 'tmr', 'iexp'))
+                    ctx.count('wall_clock_steps')
                 elif op == 'ev':
                     _op, name, etype, data = step
+                    stale.discard(name)
                     edzed.ExtEvent(blocks[name], etype).send(**data)
                 elif op == 'boom':
                     try:
@@ -304,6 +338,7 @@ def life1(case, ctx):
         aborted = not circuit.is_ready()
         frg_before = storage.snapshot().get(blocks['frg'].key)
         t_stop = wall()
+        expiry_at_stop = {name: wall_expiry(blocks[name]) for name in ('fsm', 'tmr', 'iexp')}
         try:
             await circuit.shutdown()
         except BaseException:   # pylint: disable=broad-except
@@ -336,6 +371,14 @@ def life1(case, ctx):
                 states[name] = (copy.deepcopy(snap.get(blocks[name].key)),
                                 copy.deepcopy(blocks[name].output))
             pre = points[-1]
+            for name, want in expiry_at_stop.items():
+                got = snap.get(blocks[name].key)
+                ctx.count('saved_expiry_vs_loop_timer')
+                if not isinstance(got, (list, tuple)) or not deep_eq(got[1], want):
+                    info['violations'].append(
+                        ('saved-expiry-differs-from-running-timer',
+                         f"at stop: storage[{name}] = {got!r}, the timer running before the stop "
+                         f"expires at wall-clock time {want!r} (stop at {t_stop!r})"))
             for name in PERSISTENT:
                 if name in disabled:
                     continue
@@ -652,6 +695,9 @@ def random_case(rng):
            't_T2': rng.choice([3.0, 8.0])}
     steps = []
     for _ in range(rng.randint(2, 8)):
+        if rng.random() < 0.07:
+            steps.append(['walljump', rng.choice([-307.0, -5.0, 31.0, 3607.0])])
+            continue
         r = rng.random()
         if r < 0.2:
             steps.append(['sleep', rng.choice([0.5, 1.5, 3.5, 4.5, 7.0])])
